@@ -452,7 +452,7 @@ CLAUSES = {
 def explore(ctx):
     only = getattr(ctx, "only", None)
     d_acc = ctx.pick(4, 5)
-    d_con = ctx.pick(3, 4)
+    d_con = ctx.pick(4, 5)
     acc_meters = ctx.pick([(4, 4), (6, 8), (5, 4), (0, 0)], METERS)
     ctx.bound("meters_accounting", acc_meters)
     ctx.bound("accounting_depth", d_acc)
@@ -463,7 +463,7 @@ def explore(ctx):
             spec = AccountingSpec(m, V.VQ)
             ctx.bfs("accounting", spec, d_acc, label="accounting %d/%d" % m)
     if not only or "content" in only:
-        for m in ctx.pick([(4, 4), (0, 0)], [(4, 4), (3, 4), (6, 8), (0, 0)]):
+        for m in ctx.pick([(4, 4)], [(4, 4), (3, 4), (0, 0)]):
             spec = ContentSpec(m)
             ctx.bfs("content", spec, d_con, label="content %d/%d" % m)
     bounded = [m for m in METERS if m != (0, 0)]
